@@ -20,7 +20,14 @@ func runC04(r *harness.Run) {
 	r.Rule = "complete product of event x ordered operand pair (tables sharing a metatable, tables whose metatables share or do not share the handler, plain table, userdata, numbers, numeric and non-numeric strings, nil, true) x operand form (local, constant, upvalue) x context (value, branch condition, concat chain position, tail call) x handler result (truthy, false, nil); " +
 		"__index/__newindex as function and as table chains of depth 1-3 and 99/100/101 with key present/absent/stored-false; the complete product of 1-2 (thorough: 3) linked tables x per level key absent/present/false x __index link none/table/function x __newindex link none/table/logging function/rawsetting function x key form, driven by a fixed read/write/erase sequence with raw dumps (F-chain); __call as statement, argument, tail call, iterator; __tostring, __metatable, rawget/rawset/rawequal. Every handler logs event, argument identities and order through emit and returns two values. Each program runs on gopher-lua and the reference interpreter"
 	r.Assumptions = []string{"luaref implements the manual's §2.8 pseudo-code", "not judged: __len on tables, the second argument of __unm, __gc/__mode, callable tables as handlers, arithmetic on the string metatable"}
-	pr.runGens(gens, []string{"F-misc", "F-callmeta", "F-index", "F-chain", "F-cmp", "F-arith"})
+	order := []string{"F-misc", "F-callmeta", "F-index", "F-chain", "F-cmp", "F-arith"}
+	// every event once more on protected metatables (__metatable set): only getmetatable and
+	// setmetatable may notice
+	for _, n := range append([]string{}, order...) {
+		gens["L/"+n] = mapGen(gens[n], "L/", lockMeta)
+		order = append(order, "L/"+n)
+	}
+	pr.runGens(gens, order)
 	runPinned(r, "C04")
 	reentrantFamily(r, "C04")
 	// handlers are entered through frames that the interpreter builds on the value stack: the same
